@@ -1396,7 +1396,7 @@ func (r *sbRunner) runCmd(jobs []sbJob) map[int]sbObs {
 			preKey = strings.Join(j.Pre, "\n")
 			if len(j.Pre) > 0 {
 				p.in.Write([]byte(preKey + "\n(println \"@@ZVP\")\n"))
-				if _, ok, _ := p.until("@@ZVP", sbProbeTimeout+time.Duration(len(j.Pre))*time.Second/4); !ok {
+				if _, ok, _ := p.until("@@ZVP", 3*sbProbeTimeout+time.Duration(len(j.Pre))*time.Second); !ok {
 					fatal("zygo -sandbox did not get through the prelude definitions")
 				}
 			}
